@@ -124,6 +124,7 @@ func extractSecure(p *pkgs, f *facts) {
 	// SecureConfig.Check: the only call that writes into the hasher is io.Copy(<recv>.Hash, F) with F the variable that
 	// os.Open(<the path parameter>) was assigned to; F is not reassigned, nothing seeks it
 	whole := false
+	fieldDirect := true
 	if ck := p.fn("SecureConfig", "Check"); ck != nil && len(ck.Recv.List[0].Names) == 1 {
 		recv := ck.Recv.List[0].Names[0].Name
 		fileVar := ""
@@ -153,6 +154,35 @@ func extractSecure(p *pkgs, f *facts) {
 			return true
 		})
 		whole = copies == 1 && okCopies == 1 && seeks == 0 && assigns[fileVar] == 1
+		// the checksum compared is the receiver's field ITSELF: every mention of <recv>.Checksum in Check is the argument of
+		// len(…) or of the one comparison (subtle.ConstantTimeCompare / bytes.Equal) — no local "normalised" copy of it
+		allowed := map[ast.Node]bool{}
+		cmps := 0
+		ast.Inspect(ck.Body, func(n ast.Node) bool {
+			if c, ok := n.(*ast.CallExpr); ok {
+				fn := exprString(c.Fun)
+				if fn == "len" || fn == "subtle.ConstantTimeCompare" || fn == "bytes.Equal" {
+					for _, a := range c.Args {
+						if exprString(a) == recv+".Checksum" {
+							allowed[a] = true
+							if fn != "len" {
+								cmps++
+							}
+						}
+					}
+				}
+			}
+			return true
+		})
+		ast.Inspect(ck.Body, func(n ast.Node) bool {
+			if se, ok := n.(*ast.SelectorExpr); ok && exprString(se) == recv+".Checksum" && !allowed[se] {
+				fieldDirect = false
+			}
+			return true
+		})
+		if cmps != 1 {
+			fieldDirect = false
+		}
 	} else {
 		f.miss = append(f.miss, "SecureConfig.Check")
 	}
@@ -188,6 +218,8 @@ func extractSecure(p *pkgs, f *facts) {
 			return true
 		})
 	}
+	detail["checksumFieldComparedDirectly"] = fieldDirect
+	asGiven = asGiven && fieldDirect
 	detail["checksumAsGiven"] = asGiven
 	f.lean = append(f.lean, fmt.Sprintf("def secureCheck : Secure.CheckParams := ⟨%s, 0, %s, %s⟩", leanBool(whole), leanBool(everyStart), leanBool(asGiven)))
 	detail["checkHashesWholeFile"] = whole
